@@ -1,6 +1,6 @@
 """What is claimed, per property. A property appears in CLAIMS only once its checker exists and
 passes on the unchanged tree."""
-FIX_COMMITS = ["4e9e139", "5ee6583", "744f482", "eb93a13", "ceb972a", "a924d81", "2127bcd", "d45c8ce", "840f793"]
+FIX_COMMITS = ["4e9e139", "5ee6583", "744f482", "eb93a13", "ceb972a", "a924d81", "2127bcd", "d45c8ce", "840f793", "c6f0e0e"]
 
 CLAIMS = {
     "C09": dict(
@@ -108,6 +108,16 @@ CLAIMS = {
         ref="DESIGN.md §3 C20",
         note="the heap graph is built from annotations, not observed stores; four known findings (expression registry, expression graph, two caches)",
         technique="static analysis: reachability in a type-level heap graph with automatically discovered roots; effect analysis of the registry",
+    ),
+    "C04": dict(
+        text="Decides three structural necessary conditions of the round trip's sharing structure: id()-keyed memo tables keep the keyed "
+             "object alive (or only restore a key still held), memo lookup dominates allocation and registration dominates descent in "
+             "both directions with identity-preserving allocate-then-initialise, and writer and reader classify relationships over "
+             "direction x uselist by the same extracted decision table. Isomorphism of the converted graph (values, order, alternative "
+             "mappings) is not decided.",
+        ref="DESIGN.md §3 C04",
+        note="trusts CPython's id() reuse and SQLAlchemy's three relationship directions",
+        technique="static analysis: id-key hygiene rule, CFG dominance, decision-table agreement between sibling functions",
     ),
 }
 
